@@ -253,7 +253,9 @@ add("C15",
     "WInv = C02's graph invariant + a consistent memo, preserved by every operation via step_untouched — what changed() does not visit keeps its cached order — and "
     "sroFresh_congr), C15_agree / C15_present (namesAndDescriptions(all=True) binds every name exactly as get does; present iff some member of __iro__ defines it), "
     "C15_tags / C15_tag_first, C15_invariants (every invariant along __iro__ runs in order; all failures collected, first raised), C15_follow (= C02_fresh), "
-    "C15_pinned_violates (README diamond, kernel-checked). The model with memo is compared with both twins on re-basing histories with warmed memos; all accessors "
+    "C15_pinned_violates (README diamond, kernel-checked); setTaggedValue on a LIVE interface (model op setTag, stream op settag): C15_settag_listed / C15_settag_resolves "
+    "(every interface with the tagged one in its __iro__ lists and resolves the new tag at once, in every state), C15_settag_other / C15_settag_unrelated / setTag_get. "
+    "The model with memo is compared with both twins on re-basing histories with warmed memos; all accessors "
     "are cross-checked on the real objects and judged against the statement on an __iro__ computed by CPython's own MRO from the current bases.",
     "Guards: G-acyclic, duplicate-free base lists, the root interface is never re-based.",
     "Lean 4 proof (history invariant composing the memo invariant with C02's, dict-update lemma) + differential correspondence + statement oracle on CPython-MRO orders", "6/C15")
@@ -361,8 +363,13 @@ add("C10",
     "direct declaration; classes of every declaration style, builtins, super proxies, callables), probes their view with plain getattr, and requires each "
     "implementation to answer as its own twin model. Every other check ties each twin to its own implementation mode. This check also compares the two "
     "implementations DIRECTLY on the operation streams of eight layers, on the spectwin objects and on seeded odd-input API programs (results, exception types, "
-    "subsequent behaviour).",
-    "stated_not_proved: equality of the remaining twin pairs (the specification descriptors' __get__, LookupBase / VerifyingBase entry points) — covered by "
+    "subsequent behaviour)."
+    " ZI.LookupTwin: lookup_twin / lookup1_twin / adapterHook_twin / verifying_twin (the C composition _adapter_hook -> _lookup1 -> _lookup and the VB_* wrappers = the "
+    "Python LookupBase / VerifyingBase methods: answers, ValueError for a non-string name on every path, cache left behind), lazy_twin / lazy_nonstring_untouched / "
+    "lazy_fresh (a lazy `required` whose iteration mutates the registry: both twins resolve it before they fetch the cache — repair /repo 7ee6ae2 — and answer the state "
+    "after the mutation), all_twin / all_fresh / all_idem (lookupAll / subscriptions), old_order_stale / all_old_order_stale (kernel-checked: the cache-first order of the "
+    "Python reference before the repair answers the replaced factory).",
+    "stated_not_proved: equality of the remaining twin pairs (the specification descriptors' __get__, the multi-object entry points queryMultiAdapter / subscribers) — covered by "
     "differential execution only; nothing about the C code's conformance to its modelled logic beyond the correspondence, or about memory (C11), is a theorem. Known "
     "findings eq-foreign-nonstr-name and garbage-provides-exception-type. Old-style `__implemented__ = ...` assignments and arguments of the wrong kind (a non-interface "
     "as `provided`, a list as lookup1's single `required`) are outside the generated programs.",
